@@ -159,8 +159,9 @@ Definition holds_on (c : pcase) : bool :=
       mz_same inp (peaks o) && f_same (origin p) (origin o)
       && list_agree (fun x y => q_close_rel (qf0 (inten y)) (qf0 (inten x) * qf0 f) eps14) inp (peaks o)
   | OpShift off, OutTip o | OpCloneShifted off, OutTip o =>
-      list_agree (fun x y => f_same (inten x) (inten y) && q_close_abs (qf0 (mz y)) (qf0 (mz x) + qf0 off) eps9) inp (peaks o)
-      && q_close_abs (qf0 (origin o)) (qf0 (origin p) + qf0 off) eps9
+      (* a correctly rounded sum is within 2^-53 (relative) of the exact one; 1e-15 leaves room for a different but honest addition *)
+      list_agree (fun x y => f_same (inten x) (inten y) && q_close_rel (qf0 (mz y)) (qf0 (mz x) + qf0 off) eps15) inp (peaks o)
+      && q_close_rel (qf0 (origin o)) (qf0 (origin p) + qf0 off) eps15
   | OpTrunc t, OutTip o => trunc_spec (pc_exact c) inp (peaks o) (qf0 t) && f_same (origin p) (origin o)
   | OpIgnore t, OutTip o => ignore_spec inp (peaks o) t && f_same (origin p) (origin o)
   | OpFused t1 t2 sh, OutTip o =>
